@@ -13,7 +13,9 @@ built one that verified under an issuer taken from the library's own dictionarie
 truthy exit of Certificate.verify carries the signature check under the issuer's (or, marked self-signed, its own)
 explicit key, issuer correspondence and permission containment, and verify_signature answers False from its exception
 handler (cert-verify); the ECDSA primitive answers other than False only with the result of the library's
-VerifyingKey.verify over the caller's data, r/s and x/y with SHA-256 (backend).
+VerifyingKey.verify over the caller's data, r/s and x/y with SHA-256 (backend); the security switches the receive path
+reads keep their configured value: MIB is frozen and Router.mib is bound at construction, a later binding must be a copy
+that carries itsGnSecurity and itsGnSnDecapResultHandling over (switch-stable).
 Does not decide cryptographic strength, OER parser behaviour under bit flips / trailing bytes (value level), nor
 histories of forged chains beyond trust-store closure (C09).
 """
@@ -270,9 +272,61 @@ def run(ctx):
 
     # ---- (5) the library only returns known or freshly verified tickets
     library_returns(ctx)
+    switch_stable(ctx)
+    ctx.floor("C03.switch-stable", 2)
     # ---- (6),(7)
     SU.cert_verify_conjuncts(ctx, "C03.cert-verify")
     backend_primitive(ctx, "C03.backend")
+
+
+SWITCHES = ("itsGnSecurity", "itsGnSnDecapResultHandling")
+
+
+def switch_stable(ctx) -> None:
+    """The receive path reads the security switches from `self.mib` on every packet.  They keep the configured value for
+    the life of the router: MIB is a frozen dataclass, and `Router.mib` is bound in __init__ only - or a later binding is a
+    copy that carries both switches over from the MIB it replaces (`replace(self.mib, <other fields>)`, or a constructor
+    call that passes `itsGnSecurity=self.mib.itsGnSecurity` and the decap handling likewise).  A rebuilt MIB that leaves
+    them at their defaults switches verification off at run time."""
+    P = ctx.prog
+    router = P.cls(ROUTER)
+    mib = P.cls("geonet.mib.MIB")
+    ctx.ob("C03.switch-stable", mib.qual[10:], "frozen", mib.dataclass and mib.frozen,
+           "MIB is a frozen dataclass: a switch cannot be assigned through the instance", f"{mib.module.rel}:{mib.node.lineno}")
+    for sw in SWITCHES:
+        if sw not in mib.fields:
+            raise AnalysisError(f"C03: MIB no longer has the field {sw}")
+    n_init = 0
+    for m in router.methods.values():
+        fl = ctx.flows.get(m)
+        for n in ast.walk(m.node):
+            tgts = n.targets if isinstance(n, ast.Assign) else [n.target] if isinstance(n, (ast.AnnAssign, ast.AugAssign)) else []
+            for t in tgts:
+                d = dotted(t) or ""
+                if d != "self.mib" and not any(d == f"self.mib.{sw}" for sw in SWITCHES):
+                    continue
+                if m.name == "__init__" and d == "self.mib":
+                    n_init += 1
+                    continue
+                v = fl.expand(n.value, fl.state_at(n)) if getattr(n, "value", None) is not None and id(n) in fl.before else getattr(n, "value", None)
+                ok, why = False, "the switches are assigned directly"
+                if d == "self.mib" and isinstance(v, ast.Call):
+                    callee = (dotted(v.func) or "").split(".")[-1]
+                    kws = {k.arg: k.value for k in v.keywords if k.arg}
+                    if callee in ("replace", "dataclass_replace") and v.args and sem.same(v.args[0], "self.mib"):
+                        ok = not any(sw in kws for sw in SWITCHES)
+                        why = "the copy overrides a security switch"
+                    elif any(isinstance(t_, ClassInfo) and t_ is mib for t_ in P.call_targets(m, v, count=False)):
+                        ok = all(sw in kws and sem.same(kws[sw], f"self.mib.{sw}") for sw in SWITCHES) and not v.args
+                        why = "the new MIB is built without carrying " + " / ".join(sw for sw in SWITCHES if not (sw in kws and sem.same(kws[sw], f"self.mib.{sw}"))) + " over (they fall back to DISABLED / the default)"
+                    else:
+                        why = f"`{sem.cx(v)[:80]}` is not a copy of the current MIB"
+                ctx.ob("C03.switch-stable", m.short(), f"rebinds:{d}", ok,
+                       "the MIB is replaced by a copy that keeps both security switches" if ok else
+                       f"{m.name} rebinds {d} at run time and {why}: from then on unsecured packets are delivered although the "
+                       "station was configured with itsGnSecurity ENABLED", f"{m.module.rel}:{n.lineno}")
+    ctx.ob("C03.switch-stable", router.qual[10:], "bound-at-construction", n_init >= 1,
+           "Router.mib is bound in __init__", f"{router.module.rel}:{router.node.lineno}")
 
 
 # ---------------------------------------------------------------------------------------------------------------
